@@ -243,6 +243,13 @@ func vFieldsOf(v reflect.Value, out map[string][]string, prefix string) {
 		case []net.Addr:
 			out[name] = fB(vAddrBytes(x))
 			continue
+		case []ShortChannelID:
+			var all []byte
+			for _, id := range x {
+				all = binary.BigEndian.AppendUint64(all, id.ToUint64())
+			}
+			out[name] = fB(all)
+			continue
 		case color.RGBA:
 			out[name+".R"] = fN(uint64(x.R))
 			out[name+".G"] = fN(uint64(x.G))
@@ -406,6 +413,57 @@ func vAddrRows(out *vWriter, mt MessageType, r *vrng, bases [][]byte) {
 		nb = append(nb, sec...)
 		nb = append(nb, b[end:]...)
 		out.emit(vCheckBytes(mt, nb, "addr-craft", nil))
+	}
+}
+
+// vScidRows: query_short_channel_ids bodies with a PLAIN id list: empty (n = 0, n = 1),
+// sorted, equal neighbours, descending pair, length not 8k+1, unknown encoding byte,
+// announced length past the end, followed by extension data.
+func vScidRows(out *vWriter, mt MessageType, r *vrng) {
+	n := vCases(40, 1500)
+	for i := 0; i < n; i++ {
+		rr := r.fork(uint64(i))
+		k := []int{0, 0, 1, 2, 3, 8, 40}[rr.intn(7)]
+		var ids []byte
+		cur := uint64(rr.intn(1 << 20))
+		for j := 0; j < k; j++ {
+			switch rr.intn(12) {
+			case 0: // equal
+			case 1:
+				if cur > 0 {
+					cur-- // descending
+				}
+			default:
+				cur += uint64(1 + rr.intn(1<<16))
+			}
+			if rr.intn(10) == 0 {
+				cur = cur<<24 | uint64(rr.intn(1<<24))
+			}
+			ids = binary.BigEndian.AppendUint64(ids, cur)
+		}
+		body := append([]byte{0}, ids...)
+		switch rr.intn(12) {
+		case 0:
+			body = nil // n = 0: no encoding byte at all
+		case 1:
+			body[0] = byte(2 + rr.intn(254)) // unknown encoding
+		case 2:
+			body = append(body, rr.bytes(1+rr.intn(7))...) // not a whole number of ids
+		}
+		ln := len(body)
+		if rr.intn(12) == 0 {
+			ln += 1 + rr.intn(3)
+		}
+		b := append([]byte{byte(mt >> 8), byte(mt)}, rr.bytes(32)...)
+		b = append(b, byte(ln>>8), byte(ln))
+		b = append(b, body...)
+		switch rr.intn(4) {
+		case 0:
+			b = append(b, vUnknownRec...)
+		case 1:
+			b = append(b, rr.bytes(1+rr.intn(9))...)
+		}
+		out.emit(vCheckBytes(mt, b, "scid-craft", nil))
 	}
 }
 
@@ -1043,8 +1101,8 @@ func TestVerifWire(t *testing.T) {
 	out := vOpenOut()
 	defer out.close()
 	master := vNewRng(vSeed())
-	nval := vCases(6, 120) * vBoost
-	nmut := vCases(40, 1500) * vBoost
+	nval := vCases(8, 120) * vBoost
+	nmut := vCases(90, 1500) * vBoost
 	only, onlyFail := vOnly("VERIF_ONLY"), vOnly("VERIF_ONLY_FAIL")
 	directed := only != nil || onlyFail != nil
 	if directed {
@@ -1123,6 +1181,11 @@ func TestVerifWire(t *testing.T) {
 				"append-unknown-tlv", b))
 		}
 		out.emit(vCheckBytes(mt, tb[:], "empty-body", nil))
+		if mt == MsgQueryShortChanIDs {
+			for k := 0; k < vBoost; k++ {
+				vScidRows(out, mt, r.fork(uint64(900000+k)))
+			}
+		}
 		if mt == MsgNodeAnnouncement {
 			for k := 0; k < vBoost; k++ {
 				vAddrRows(out, mt, r.fork(uint64(800000+k)), bases)
@@ -1142,7 +1205,7 @@ func TestVerifWire(t *testing.T) {
 					vTlvLens(b[k:], vCraftHint)
 				}
 			}
-			ncraft := vCases(24, 800) * vBoost
+			ncraft := vCases(60, 800) * vBoost
 			for i := 0; i < ncraft; i++ {
 				rr := r.fork(uint64(500000 + i))
 				base := bases[rr.intn(len(bases))]
@@ -1420,7 +1483,7 @@ func vFailures(out *vWriter, master *vrng, only map[int]bool) {
 		b = append(b, byte(pad>>8), byte(pad))
 		return append(b, make([]byte, pad)...)
 	}
-	nmut := vCases(12, 400) * vBoost
+	nmut := vCases(20, 400) * vBoost
 	for _, c := range codes {
 		var bases [][]byte
 		for _, s := range shapes() {
